@@ -417,6 +417,17 @@ pub fn normalise_msg(s: &str) -> String {
     out
 }
 
+/// Source path relative to the noodles tree (so fingerprints are the same in scratch worktrees).
+pub fn norm_file(file: &str) -> String {
+    if let Some(i) = file.find("/noodles-") {
+        return file[i + 1..].to_string();
+    }
+    if let Some(i) = file.find("/noodles/") {
+        return file[i + 1..].to_string();
+    }
+    file.strip_prefix("/repo/").unwrap_or(file).to_string()
+}
+
 /// Runs `f` and turns a panic into `Err((message, file))`.
 pub fn catch<T>(f: impl FnOnce() -> T) -> Result<T, (String, String)> {
     install_panic_hook();
@@ -433,11 +444,7 @@ pub fn catch<T>(f: impl FnOnce() -> T) -> Result<T, (String, String)> {
                 None => (s, String::new()),
             };
             let file = loc.rsplit_once(':').map(|x| x.0).unwrap_or(&loc).to_string();
-            let file = file
-                .strip_prefix("/repo/")
-                .map(str::to_string)
-                .unwrap_or(file);
-            Err((msg, file))
+            Err((msg, norm_file(&file)))
         }
     }
 }
